@@ -136,6 +136,7 @@ namespace ratio
                             }
                         }
                 // we notify that some atoms are starting their execution..
+                started_atoms.insert(starting_atms->second.cbegin(), starting_atms->second.cend());
                 for (const auto &l : listeners)
                     l->start(starting_atms->second);
             }
@@ -191,6 +192,7 @@ namespace ratio
                         }
                     }
                 // we notify that some atoms are ending their execution..
+                ended_atoms.insert(ending_atms->second.cbegin(), ending_atms->second.cend());
                 for (const auto &l : listeners)
                     l->end(ending_atms->second);
             }
@@ -298,8 +300,8 @@ namespace ratio
                     {
                         arith_expr at_expr = atm->get(RATIO_AT);
                         inf_rational at = slv.arith_value(at_expr);
-                        if (at < current_time)
-                            continue; // this atom is already in the past..
+                        if (ended_atoms.count(&c_atm))
+                            continue; // this atom has already been dispatched..
                         s_atms[at].insert(&c_atm);
                         e_atms[at].insert(&c_atm);
                         pulses.insert(at);
@@ -309,11 +311,11 @@ namespace ratio
                         arith_expr s_expr = atm->get(RATIO_START);
                         arith_expr e_expr = atm->get(RATIO_END);
                         inf_rational end = slv.arith_value(e_expr);
-                        if (end < current_time)
-                            continue; // this atom is already in the past..
+                        if (ended_atoms.count(&c_atm))
+                            continue; // this atom has already been executed..
                         inf_rational start = slv.arith_value(s_expr);
-                        if (start >= current_time)
-                        {
+                        if (!started_atoms.count(&c_atm))
+                        { // this atom has not started yet..
                             s_atms[start].insert(&c_atm);
                             pulses.insert(start);
                         }
